@@ -91,6 +91,7 @@ impl HandlerManager {
       endpoint_uri,
       target_endpoint_uri,
       connection_iface,
+      conn_token: 0,
     });
 
     let mut handler_box =
